@@ -39,6 +39,18 @@ Theorem C02_independent : forall targets h pi h',
 Proof. exact merge_into_spec. Qed.
 Print Assumptions C02_independent.
 
+(* MergeDocument as a whole, for a layer document with selected targets: exactly the selected documents change,
+   each to the merge of ITS OWN data with the layer's body; no other document is influenced *)
+Theorem C02_merge_document : forall st pi l body st',
+  select st pi = (SelTargets l, body) -> NoDup l -> ~ In pi l -> ~ In pi (pdocs st) ->
+  (forall t, In t l -> t < List.length (heap st)) -> pi < List.length (heap st) ->
+  merge_document st pi = (st', Ok tt) ->
+  pdocs st' = pdocs st /\
+  (forall q, In q l -> merge' (d_data (get_doc (heap st) q)) body = Ok (d_data (get_doc (heap st') q))) /\
+  (forall q, ~ In q l -> q <> pi -> d_data (get_doc (heap st') q) = d_data (get_doc (heap st) q)).
+Proof. exact merge_document_targets. Qed.
+Print Assumptions C02_merge_document.
+
 (* document order is preserved: MergeDocument only ever appends *)
 Theorem C02_order_preserved : forall st pi st' r, merge_document st pi = (st', r) ->
   exists tail, pdocs st' = pdocs st ++ tail.
